@@ -567,7 +567,7 @@ fn run_steps(scn: &Scenario) {
         poll_cap: std::env::var("PVH_POLL_CAP")
             .ok()
             .and_then(|s| s.parse().ok())
-            .unwrap_or(if scn.engine { 6_000 } else { 60_000 }),
+            .unwrap_or(if scn.engine { 6_000 } else { 500_000 }),
         named: proof_path.is_some(),
     };
     let mut completed = true;
